@@ -198,7 +198,15 @@ func (r *Runner) body(id string, l *layout) func([]reflect.Value) []reflect.Valu
 		if out == "err" && !l.hasErr {
 			out = "ok"
 		}
-		r.log = append(r.log, Event{T: "exec", F: id, N: n, O: out, Args: l.decode(args)})
+		ev := Event{T: "exec", F: id, N: n, O: out, Args: l.decode(args)}
+		if len(l.fn.Nest) > 0 {
+			// the body calls Invoke on the container again before it returns; its own event is
+			// logged when it ends (a panic of a nested call passes through without one)
+			for _, nc := range l.fn.Nest {
+				r.log = append(r.log, r.nested(nc))
+			}
+		}
+		r.log = append(r.log, ev)
 		r.advance(time.Duration(l.fn.Dur) * unit)
 		if out == "panic" {
 			panic(panicValue(id, n))
@@ -211,6 +219,38 @@ func (r *Runner) body(id string, l *layout) func([]reflect.Value) []reflect.Valu
 		}
 		return res
 	}
+}
+
+// nested makes one re-entrant Invoke from inside a running user function and returns the event
+// describing how it ended. A panic leaving it (container without RecoverFromPanics) is not
+// caught here: it passes through the calling body like through any user code.
+func (r *Runner) nested(nc cat.NestCall) Event {
+	ev := Event{T: "nest", F: nc.I, View: nc.S}
+	a, err := r.api(nc.S)
+	if err != nil {
+		ev.O = "reject"
+		return ev
+	}
+	val, _, err := r.build(nc.I)
+	if err != nil {
+		ev.O = "reject"
+		return ev
+	}
+	n0 := r.execs[nc.I]
+	callErr := a.Invoke(val)
+	var e Entry
+	r.classify(&e, callErr, func() *ExecErr {
+		if r.execs[nc.I] > n0 {
+			return r.sentinel[planKey{nc.I, r.execs[nc.I]}]
+		}
+		return nil
+	})
+	ev.O = normVerdict(e.V)
+	ev.E, ev.N = e.RF, e.RN
+	if e.Class != "" && e.Class != "rootdig" && e.Class != "rootdig,cycle" && e.Class != "panicerr" {
+		ev.Name = e.Class // classification facts of the nested error (C13)
+	}
+	return ev
 }
 
 func (r *Runner) callback(id string) dig.Callback {
